@@ -1,6 +1,7 @@
 import AL.Model.ParseWf
 import AL.Model.Rules
 import AL.Model.RuleExpr
+import AL.Model.CallMeta
 import Driver.Util
 /-
   `parsewf <numbers> <node>`: the document node as an S-expression
@@ -216,6 +217,39 @@ def handleExpr : List String → String
       let codes := ds.map fun d => d.code ++ "(" ++ ",".intercalate (d.args.map fun a => hexStr (esc a)) ++ ")"
       ";".intercalate (codes.foldr insertStr [])
     | _, _ => "bad-op"
+  | _ => "bad-op"
+
+end Driver.ParseWfD
+
+namespace Driver.ParseWfD
+open AL.Yaml AL.Ast AL.PW Driver
+
+def tyS : AL.CallMeta.Ty → String
+  | .any => "any" | .bool => "bool" | .number => "number" | .string => "string"
+
+/-- canonical form of an interface: the three maps sorted by key -/
+def metaS (m : AL.CallMeta.Meta) : String :=
+  "in" ++ mapS (fun (i : AL.CallMeta.Input) => s!"{hexStr i.name},{b01 i.required},{tyS i.ty}") m.inputs ++
+  "sec" ++ mapS (fun (s : AL.CallMeta.Secret) => s!"{hexStr s.name},{b01 s.required}") m.secrets ++
+  "out" ++ mapS (fun (o : String) => hexStr o) m.outputs
+
+/-- `callmeta <node>`: the interface of a reusable workflow from the document node, both ways.
+Answer: `file=<interface|error|notfound|unsupported> ast=<interface|none> diags=<number of parser diagnostics>` -/
+def handleCallMeta : List String → String
+  | [node] =>
+    match (readSExp node) >>= nodeOf with
+    | some n =>
+      let cfg := cfgOf []
+      let f := match AL.CallMeta.fromDoc cfg n with
+        | .ok m => metaS m
+        | .error .decode => "error"
+        | .error .notFound => "notfound"
+        | .error .unsupported => "unsupported"
+      let a := match AL.CallMeta.fromDocAst cfg n with
+        | some m => metaS m
+        | none => "none"
+      s!"file={f} ast={a} diags={(parse cfg n).2.length}"
+    | none => "bad-op"
   | _ => "bad-op"
 
 end Driver.ParseWfD
